@@ -7,7 +7,7 @@ import lib, sx, framework
 
 def all_checks():
     checks, monitors = {}, {}
-    for modname in ("checks_base", "checks_prop", "checks_truth", "checks_store", "checks_fol", "checks_quant", "checks_train"):
+    for modname in ("checks_base", "checks_prop", "checks_truth", "checks_registry", "checks_store", "checks_fol", "checks_quant", "checks_train"):
         try:
             mod = __import__(modname)
         except ImportError as e:
@@ -27,6 +27,17 @@ def replay(pid, path, monitors):
         print("this replay names a theorem/correspondence that no longer checks; no concrete input to re-execute")
         return 1
     v = r["violation"]
+    if v.get("monitor") == "corpus":
+        import subprocess
+        env = dict(os.environ); env.update({"PYTHONPATH": lib.REPO})
+        p = subprocess.run([lib.PY, os.path.join(lib.VERIF, v["scenario"])], cwd="/tmp", env=env, stdout=subprocess.PIPE, stderr=subprocess.STDOUT, text=True)
+        out = [l for l in p.stdout.strip().split("\n") if "WARNING" not in l]
+        print("\n".join(out[-8:]))
+        if not out or out[-1].strip() != "PASS":
+            print(f"VIOLATION property={pid} replay={path}")
+            return 1
+        print("property holds on this input now")
+        return 0
     line = v["scenario"]
     out = lib.run_impl([line], hashseed=v.get("hashseed", 0))[0]
     print("scenario:", line)
